@@ -94,6 +94,13 @@ def w_heat_line():
         E("pipe", f=2, to=3, u=5.0), E("sink", j=3)]}
 
 
+def w_heat_line_rev():
+    """heat line, different numbers of sections, the middle pipe (most sections) entered against the flow"""
+    return {"name": "w_heat_line_rev", "fluid": "water", "nj": 4, "elems": [
+        E("ext_grid", j=0, type="pt"), E("pipe", f=0, to=1, u=5.0), E("pipe", f=2, to=1, u=5.0, sections=4),
+        E("pipe", f=2, to=3, u=5.0, sections=2), E("sink", j=3)]}
+
+
 def w_heat_reversed():
     """heat line with pipes entered against the flow, parallel pair with one member reversed"""
     return {"name": "w_heat_reversed", "fluid": "water", "nj": 4, "elems": [
